@@ -7,6 +7,36 @@ def replay(root, path):
     with open(path) as f:
         v = json.load(f)
     prop = v.get("property", "C01")
+    import vprops
+    if v.get("rangemap_replay"):
+        exe = vprops.build_engine(root, "rangemap_mon")
+        recs = vprops.run_engine(root, exe, "quick", 1, {"VP_RM_REPLAY": v["rangemap_replay"]})
+        bad = [r for r in recs if r.get("t") == "V"]
+        if bad:
+            print("VIOLATION property=%s replay=%s" % (prop, path))
+            print("  " + bad[0]["v"].get("what", ""))
+            return 1
+        print("no violation of %s on the recorded RangeMap operation sequence with the current /repo" % prop)
+        return 0
+    if v.get("boundaries") is not None and prop == "C18":
+        exe = vprops.build_engine(root, "tablegen_mon")
+        spec = "%d:%s" % (1 if v.get("polarity") else 0, ",".join(str(b) for b in v["boundaries"]))
+        recs = vprops.run_engine(root, exe, "quick", 1, {"VP_C18_REPLAY": spec})
+        bad = [r for r in recs if r.get("t") == "V"]
+        if bad:
+            print("VIOLATION property=%s replay=%s" % (prop, path))
+            print("  " + bad[0]["v"].get("what", ""))
+            return 1
+        print("no violation of C18 on the recorded predicate with the current /repo")
+        return 0
+    if prop == "C17" and v.get("source"):
+        return replay_source(root, v, path, expect_error=True)
+    if prop == "C13" and v.get("builtin"):
+        print("replaying a C13 record re-runs the sweep of the check (all scalar values):")
+        import subprocess
+        return subprocess.call([os.path.join(root, "check"), "C13", "--tier", v.get("tier", "quick")])
+    if "variants" not in v and "spec" not in v and v.get("source") and "lexer!" in v.get("source", ""):
+        return replay_source(root, v, path, expect_error=False)
     if "variants" not in v and "spec" not in v:
         print("replay: this record has no lexer definition (engine-specific finding); re-run the check instead")
         print(json.dumps({k: v[k] for k in v if k in ("what", "definition", "expected", "observed")}, indent=1))
@@ -71,4 +101,28 @@ def replay(root, path):
         print("INCONCLUSIVE " + "; ".join(eng.harness_msgs[:3]))
         return 2
     print("no violation of %s on the recorded case with the current /repo" % prop)
+    return 0
+
+
+def replay_source(root, v, path, expect_error):
+    """Compile a recorded `lexer!` source text alone. expect_error=True (C17): the violation is that it
+    compiles; False (C12-style records without a spec): the violation is that it does not."""
+    prop = v.get("property")
+    eng = GenericEngine(root, "replay", "quick", 1)
+    eng.prepare()
+    name = "replay_src"
+    src = "#![allow(unused)]\nuse vdrive::{St, Tok};\nmod m {\n    use super::*;\n    use lexgen::lexer;\n" + v["source"] + "}\nfn main() {}\n"
+    with open(os.path.join(eng.work, "src", "bin", name + ".rs"), "w") as f:
+        f.write(src)
+    rc, out, err, to = run(["cargo", "check", "--offline", "--bin", name], cwd=eng.work, env=eng.env, timeout=1800)
+    rejected = rc != 0
+    if expect_error and not rejected:
+        print("VIOLATION property=%s replay=%s" % (prop, path))
+        print("  the ill-formed definition (%s) is accepted" % v.get("variant_label", v.get("definition")))
+        return 1
+    if not expect_error and rejected:
+        print("VIOLATION property=%s replay=%s" % (prop, path))
+        print("  the definition does not expand/compile: " + err[-600:])
+        return 1
+    print("no violation of %s on the recorded definition with the current /repo" % prop)
     return 0
